@@ -368,6 +368,15 @@ class AObj(Sym):
     def __repr__(self) -> str:
         return "<%s %s>" % (self._cls_.name, ", ".join("%s=%r" % kv for kv in sorted(self.__dict__.items()) if not kv[0].endswith("_") or not kv[0].startswith("_")))
 
+    def __iter__(self) -> Any:
+        # iteration over an abstract instance: the class's own __iter__, evaluated
+        from .fold import _CURRENT
+
+        m = self._ctx_.repo.lookup_method(self._cls_, "__iter__")
+        if m is None or m.is_abstract or not _CURRENT:
+            raise TypeError("%s is not iterable" % self._cls_.name)
+        return iter(_BoundMethod(self, m).call(_CURRENT[-1], [], {}))
+
 
 def aobj_member(f: Folder, obj: AObj, attr: str) -> Any:
     """attribute `attr` of an abstract instance that is not one of its given fields"""
@@ -385,13 +394,49 @@ def aobj_member(f: Folder, obj: AObj, attr: str) -> Any:
     raise Unfoldable("%s has no member %s" % (obj._cls_.name, attr))
 
 
+TRIVIAL_DECORATORS = ("staticmethod", "classmethod", "property", "abstractmethod", "setter", "overload", "lru_cache", "cache", "wraps", "override", "final")
+
+
+def nontrivial_decorators(fn: Any) -> List[ast.expr]:
+    out = []
+    for d in fn.node.decorator_list:
+        name = (dotted(d.func) if isinstance(d, ast.Call) else dotted(d)) or "?"
+        if name.split(".")[-1] not in TRIVIAL_DECORATORS:
+            out.append(d)
+    return out
+
+
+class _RawMethod(Abstract):
+    """a method as the plain function its decorators receive: called with the instance as first argument"""
+
+    def __init__(self, fn: Any):
+        self.fn = fn
+        self.__dict__["__name__"] = fn.name
+
+    def __call__(self, obj: Any, *args: Any, **kwargs: Any) -> Any:
+        from .fold import _CURRENT
+
+        return _BoundMethod(obj, self.fn, raw=True).call(_CURRENT[-1], list(args), kwargs)
+
+
 class _BoundMethod(Abstract):
-    def __init__(self, obj: AObj, fn: Any):
+    def __init__(self, obj: AObj, fn: Any, raw: bool = False):
         self.obj = obj
         self.fn = fn
+        self.raw = raw
 
     def call(self, f: Folder, args: List[Any], kwargs: Dict[str, Any]) -> Any:
         fn = self.fn
+        decos = [] if self.raw else nontrivial_decorators(fn)
+        if decos:
+            # the name is bound to what the decorators (evaluated from source) make of the function
+            from .fold import call_value
+
+            v: Any = _RawMethod(fn)
+            for d in reversed(decos):
+                dec = Folder({}, f.repo, fn.module, fn.cls, f.hook).fold(d)
+                v = call_value(f, dec, [v])
+            return call_value(f, v, [self.obj] + list(args), kwargs)
         node = self.obj._ctx_.inl(fn)
         a = node.args
         params = [x.arg for x in a.posonlyargs + a.args]
